@@ -310,6 +310,8 @@ fn invocation_forms(rep: &mut Report, root: &std::path::Path) {
         ("hash seed 9", vec![("VERIF_DETRAND", "9")], 2),
         ("hash seed 17", vec![("VERIF_DETRAND", "17")], 2),
         ("hash seed 28", vec![("VERIF_DETRAND", "28")], 2),
+        ("stdout is a terminal", vec![("VERIF_STDOUT_TTY", "1")], 2),
+        ("stdout is a terminal, TERM and COLUMNS set", vec![("VERIF_STDOUT_TTY", "1"), ("TERM", "xterm-256color"), ("COLUMNS", "40"), ("LINES", "10")], 2),
         ("directory listings reversed", vec![("VERIF_READDIR", "1")], 2),
         ("directory listings rotated", vec![("VERIF_READDIR", "3")], 2),
     ];
